@@ -14,6 +14,10 @@ CLAIMED = {
          "Lean theorems: a set-based happens-before discipline monitor is sound w.r.t. the declarative happens-before of the Go memory model (accepted trace => no unordered conflicting accesses), and the three synchronisation skeletons used for the repository's plain shared fields (publish-once, ants per-attempt CAS arbitration, mutex-guarded) only produce accepted traces, for any number of goroutines and any interleaving; tie to /repo: every access site of the watched fields is re-extracted from source on each run (srcfacts) and matched by the compiled Lean site table; search for concrete races: race-detector stress (never counted as proof)",
          "partial by nature: compiler/runtime/memory-model implementation, synchronisation semantics of the primitives and completeness of the access extraction are trusted; the race detector is a search tool only",
          "machine-checked proof (Lean 4) of publication discipline + regenerated access-site table + race-detector search", "DESIGN.md §2 C18"),
+ "C13": ("lean-proof+differential",
+         "Lean theorems: for every operation sequence (non-negative sizes) the models of iox.Buffer (grow policy transcribed branch by branch, capacity included) and iox.OctetsStream refine an abstract seekable FIFO over the full write history (unread portion = bytes written and not consumed; compaction invisible; Seek fails unchanged or lands inside the retained data, all int64 offsets incl. overflow; no panic); models tied to /repo by per-run differential comparison of every observation (result, Bytes, Len, cursor, Cap) after every op over exhaustive short and random long sequences, plus an independent Python reference oracle",
+         "trusted: Lean kernel, axioms in evidence, driver compilation, harness+generators; bytes between len and cap unobservable; ErrTooLarge excluded by a stated total-size bound; single goroutine",
+         "machine-checked refinement proof (Lean 4) + differential correspondence", "DESIGN.md §2 C13"),
 }
 NOT_CLAIMED = {}
 
